@@ -540,15 +540,24 @@ def gen_plan(family, seed, msgs, tier='quick', index=None):
         # every program of the pool at least once: compile, execute cached, encode, save/load, execute
         m = msgs[(index if index is not None else rng.randrange(len(msgs))) % len(msgs)]
         cm = rng.choice([1, 2, 8])
-        ops = [{'op': 'decode', 'c': 0, 'm': 0, 'wire': True, 'ive': False},
-               {'op': 'decode', 'c': 0, 'm': 0, 'wire': True, 'ive': False},
-               {'op': 'encode', 'c': 0, 'm': 0},
-               {'op': 'save_compiled', 'c': 0}, {'op': 'restart', 'c': 0}, {'op': 'load_compiled', 'c': 0},
-               {'op': 'decode', 'c': 0, 'm': 0, 'wire': True, 'ive': False},
-               {'op': 'encode', 'c': 0, 'm': 0},
-               {'op': 'render', 'h': 6, 'fmt': rng.choice(FORMATS)}]
+        # the same program with other data contents (data twins: other replication factors, bitmap
+        # arrangements, values; the compressed variant): executed through the template compiled for m
+        sibs = [x for x in msgs if m.get('twin') and x.get('twin') == m['twin'] and x['ref'] != m['ref'] and
+                m['twin'][0] in 'dz']
+        rng.shuffle(sibs)
+        group = [m] + sibs[:3]
+
+        def dec(k):
+            return {'op': 'decode', 'c': 0, 'm': k, 'wire': True, 'ive': False}
+        ops = [dec(0)] + [dec(k) for k in range(1, len(group))] + [dec(0)]
+        ops += [{'op': 'encode', 'c': 0, 'm': k} for k in range(len(group))]
+        ops += [{'op': 'save_compiled', 'c': 0}, {'op': 'restart', 'c': 0}, {'op': 'load_compiled', 'c': 0}]
+        ops += [dec(k) for k in range(len(group) - 1, -1, -1)]
+        last = len(ops) - 1
+        ops += [{'op': 'encode', 'c': 0, 'm': 0},
+                {'op': 'render', 'h': last, 'fmt': rng.choice(FORMATS)}]
         return {'engine': 'histsim', 'family': 'c08', 'sub': 'each', 'seed': seed, 'limit': 50,
-                'clients': [{'compiled': cm, 'root': 'bundled'}], 'msgs': [dict(m)], 'ops': ops}
+                'clients': [{'compiled': cm, 'root': 'bundled'}], 'msgs': [dict(x) for x in group], 'ops': ops}
     io_family = family == 'c13-io'
     c08 = family == 'c08'
     nclients = rng.randint(2, 4)
